@@ -237,57 +237,25 @@ func (c *Ctx) dpBounds(e *Emit) {
 
 func ruleHashRange(c *Ctx) {
 	n := 0
+	rebaseFn := map[*ssa.Function]bool{}
+	for _, f := range c.roles().rebase {
+		rebaseFn[f] = true
+	}
 	for _, fn := range c.allFuncs {
 		if fn.Pkg != c.lz {
 			continue
 		}
 		fi := c.info(fn)
-		for _, b := range fn.Blocks {
-			for _, in := range b.Instrs {
-				var pos ssa.Value
-				var tablePath string
-				var at token.Pos
-				switch x := in.(type) {
-				case *ssa.Store:
-					ia, ok := x.Addr.(*ssa.IndexAddr)
-					if !ok {
-						continue
-					}
-					_, p, ok := pathStr(ia.X)
-					if !ok || lastField(p) != "table" {
-						continue
-					}
-					if _, isStruct := x.Val.Type().Underlying().(*types.Struct); !isStruct {
-						continue
-					}
-					pv := structComponent(x.Val, "pos")
-					if pv == nil || pv == x.Val {
-						continue // zero entry (cleared) or unresolved
-					}
-					pos, tablePath, at = pv, p, x.Pos()
-				case *ssa.Call:
-					// bucket hash: add(h, pos, val)
-					callee := x.Call.StaticCallee()
-					if callee == nil || callee.Name() != "add" || len(x.Call.Args) != 4 {
-						continue
-					}
-					_, p, ok := pathStr(x.Call.Args[0])
-					if !ok {
-						continue
-					}
-					pos, tablePath, at = x.Call.Args[2], joinPath(p, "buckets"), x.Pos()
-				default:
-					continue
-				}
-				// skip the re-basing routine (pos − δ)
-				if fn.Name() == "shiftOffsets" {
-					continue
-				}
+		if rebaseFn[fn] {
+			continue // the re-basing routine (pos − δ) is checked by R-SHRINK-WRAP
+		}
+		for _, ti := range c.tableInserts(fn) {
+			{
+				pos, tablePath, at, b := ti.pos, ti.path, ti.in.Pos(), ti.in.Block()
 				n++
 				key := fmt.Sprintf("%s:insert#%d", fnName(fn), n)
 				// the inputLen belonging to this table: same path prefix
-				prefix := strings.TrimSuffix(strings.TrimSuffix(tablePath, "table"), "buckets")
-				prefix = strings.TrimSuffix(prefix, ".")
+				prefix := strings.TrimSuffix(strings.TrimSuffix(tablePath, lastField(tablePath)), ".")
 				var il string
 				for _, a := range fi.atomsWithSuffix(".inputLen") {
 					base := strings.SplitN(a, "@", 2)[0]
@@ -373,6 +341,11 @@ func (fi *FuncInfo) atomsWithPrefixSuffix(prefix, suffix string) []string {
 // ---------------------------------------------------------------- R-OSAP-INDEX
 
 func ruleOsapIndex(c *Ctx) {
+	edgesName, startName := c.osapFieldNames()
+	if edgesName == "" || startName == "" {
+		c.fail("osap:fields", token.NoPos, "unresolved anchor: the edge table / covered-range start of the optimizing parser were not found")
+		return
+	}
 	n := 0
 	for _, p := range c.parsers() {
 		for fn := range c.reachable(p.Parse) {
@@ -410,7 +383,7 @@ func ruleOsapIndex(c *Ctx) {
 							if !ok {
 								continue
 							}
-							if _, pth, ok := pathStr(ia.X); !ok || lastField(pth) != "edges" || strings.Contains(pth, "[*]") {
+							if _, pth, ok := pathStr(ia.X); !ok || lastField(pth) != edgesName || strings.Contains(pth, "[*]") {
 								continue
 							}
 							n++
@@ -440,7 +413,7 @@ func ruleOsapIndex(c *Ctx) {
 										}
 										wv := fi.lin(st.Val)
 										want := fi.lin(low)
-										starts := fi.atomsWithSuffix(".start")
+										starts := fi.atomsWithSuffix("." + startName)
 										for _, s := range starts {
 											if wv.eq(want.sub(linAtom(s))) {
 												okW = true
